@@ -391,7 +391,7 @@ static CMDResult CMD_EntryAddress(Boolean Negate, char const* pArg) {
             as_snprintf(
                     Str, sizeof Str, "indirect address @ %" PRIx64 " -> 0x%" PRIx64,
                     VectorAddress, Address);
-            printf("%s\n", Str);
+            printf("; %s\n", Str);
             AddChunk(&UsedDataChunks, VectorAddress, AddrLen, True);
 
             if (pName && *pName) {
